@@ -23,10 +23,13 @@ for pdir in sorted(glob.glob(os.path.join(src, "C*"))):
     shutil.copy(os.path.join(pdir, "demo%d.py" % n), os.path.join(out, "demo.py"))
     for f in glob.glob(os.path.join(pdir, "_*.py")):
       shutil.copy(f, out)
+    orig = os.path.join(pdir, "change%d.orig_head.diff" % n)
+    if os.path.exists(orig):
+      shutil.copy(orig, os.path.join(out, "patch.orig_head.diff"))
     ch = meta.get("changes", [])
     info = ch[n - 1] if len(ch) >= n else {}
     evals = {}
-    for tag in ("eval", "evalb"):
+    for tag in ("eval", "evalb", "tests"):
       f = os.path.join(pdir, "%s%d.json" % (tag, n))
       if os.path.exists(f):
         try:
@@ -34,11 +37,16 @@ for pdir in sorted(glob.glob(os.path.join(src, "C*"))):
           evals[tag] = json.loads(txt[txt.index("{"):])
         except Exception:
           evals[tag] = {"raw": open(f).read()[-400:]}
-    m = dict(property=pid, breaks=info.get("breaks"), needs=info.get("needs"),
-             author_tests_run=info.get("tests_run"),
+    prop = pid[:3]
+    t = evals.get("tests") or {}
+    m = dict(property=prop, wave=2 if pid.endswith("b") else 1, breaks=info.get("breaks"), needs=info.get("needs"),
+             note=info.get("note"), author_tests_run=info.get("tests_run"),
              confirmed=dict(
-                 how="tools/seeded.py: scratch copy of /repo, demo on the clean copy, git apply, demo again, "
-                     "then ./check %s --tier quick with VT_REPO=<scratch>" % pid,
+                 how="tools/seeded.py: scratch copy of /repo, demo on the clean copy (exit 0), git apply, demo "
+                     "again (exit != 0), then ./check %s --tier quick with VT_REPO=<scratch>; tools/pinned.py: "
+                     "the 281 pinned test ids run in a scratch copy with the patch applied" % prop,
+                 pinned_tests="%s/%s pinned tests pass with the patch%s" % (
+                     t.get("passed"), t.get("pinned"), "" if not t.get("missing") else " MISSING " + ",".join(t["missing"])),
                  first_evaluation=evals.get("eval"), after_strengthening=evals.get("evalb")))
     json.dump(m, open(os.path.join(out, "meta.json"), "w"), indent=1)
     e1 = evals.get("eval", {})
@@ -47,10 +55,14 @@ for pdir in sorted(glob.glob(os.path.join(src, "C*"))):
       ks = [k for k in e if k.startswith("check_") and not k.endswith("_first")]
       return ", ".join("%s %s" % (k[6:], e[k].split()[0]) for k in ks) or "-"
     rows.append((pid, n, (info.get("needs") or "")[:110].replace("|", "/"), e1.get("demo_clean_exit"),
-                 e1.get("demo_patched_exit"), verdict(e1), verdict(e2)))
+                 e1.get("demo_patched_exit"), "%s/%s" % (t.get("passed"), t.get("pinned")), verdict(e1), verdict(e2)))
 out = ["# Seeded changes written by independent sub-agents (property text only)", "",
-       "| id | what it needs to manifest | demo clean/patched exit | first evaluation | after strengthening |", "|---|---|---|---|---|"]
-for pid, n, needs, c0, c1, v1, v2 in rows:
-  out.append("| %s-%d | %s | %s / %s | %s | %s |" % (pid, n, needs, c0, c1, v1, v2))
+       "Ids ending in 'b' are the second wave (agents were told which patterns the first wave had used).",
+       "Each row was confirmed in a scratch copy of /repo: demo exits 0 without and non-zero with the patch,",
+       "and the 281 pinned tests still pass with it. To re-run: git -C /repo apply seeded/<id>/patch.diff;",
+       "./check <property> --tier quick; git -C /repo checkout -- .", "",
+       "| id | what it needs to manifest | demo clean/patched exit | pinned tests with patch | first evaluation | after strengthening |", "|---|---|---|---|---|---|"]
+for pid, n, needs, c0, c1, tt, v1, v2 in rows:
+  out.append("| %s-%d | %s | %s / %s | %s | %s | %s |" % (pid, n, needs, c0, c1, tt, v1, v2))
 open(os.path.join(HERE, "seeded", "INDEX.md"), "w").write("\n".join(out) + "\n")
 print("%d seeded changes indexed" % len(rows))
